@@ -43,8 +43,8 @@ type L2Genesis struct {
 	Time          time.Time
 	Balances      map[string]sdk.Coins
 	Opchild       *opchildtypes.GenesisState
-	CurrencyPairs []string // e.g. "BTC/USD"
-	ExtraMetadata []string // denoms that already have bank metadata at genesis (besides the native token)
+	CurrencyPairs []string  // e.g. "BTC/USD"
+	ExtraMetadata []string  // denoms that already have bank metadata at genesis (besides the native token)
 	ModuleFunds   sdk.Coins // genesis balance of the opchild module account (an operator may pre-fund it)
 	AppState      map[string]json.RawMessage
 	InitialHeight int64
